@@ -465,9 +465,16 @@ def native_replay(crate_dir, cfg, h, logdir):
         failed = re.findall(r"^test (\S+) \.\.\. FAILED", out, re.M)
         passed = re.findall(r"^test (\S+) \.\.\. ok", out, re.M)
         panics = re.findall(r"panicked at ([^\n]*)\n([^\n]*)", out)
+        # A panic raised by Kani's playback machinery itself (left-over / missing concrete values
+        # because a stub that draws values is inactive natively, or a `kani::assume` that does not
+        # hold for the shifted values) is NOT a reproduction; only a panic in the harness or in
+        # the crate under test is.
+        genuine_panics = [p for p in panics
+                          if not re.search(r"library/kani|kani_core|kani/src/", p[0])]
         outcomes.append({"rc": rc, "failed": failed, "passed": passed,
-                         "panics": [" ".join(p) for p in panics][:6]})
-        if failed:
+                         "panics": [" ".join(p) for p in panics][:6],
+                         "genuine_panics": len(genuine_panics)})
+        if failed and genuine_panics:
             reproduced = True
     info = {"tests": [{"kind": k, "check": d, "code": c} for k, d, c in tests],
             "native": outcomes}
